@@ -28,7 +28,7 @@ static void run_item(Ctx& ctx, const Item& it) {
   // limb counts: the complete box {0..3}^3 plus every combination of the larger counts {5, 9}
   std::vector<uint64_t> SZ = {0, 1, 2, 3, 5, 9}, SZ0 = {0};
   if (it.sparse) SZ = {0, 1, 3};  // large-N layer of the quick tier
-  if (it.wide) SZ = {0, 1, 33, 65, 129, 257};  // wide layer: limb counts around 32, 64, 128, 256 at small N
+  if (it.wide) SZ = {0, 1, 33, 65, 129, 257, 1025};  // wide layer: limb counts around 32, 64, 128, 256 at small N
   for (uint64_t rs : SZ)
     for (uint64_t as : (op.nin >= 1 ? SZ : SZ0))
       for (uint64_t bs : (op.nin >= 2 ? SZ : SZ0))
